@@ -14,7 +14,7 @@ from . import common, configs_k1
 
 PROP = "C19"
 KQ = ("NL", "J", "CE", "W0")
-KT = KQ + ('NLI', 'WT', 'CD', 'UP')
+KT = KQ + ('NLI', 'UP')
 _cur = {"rule": None}
 
 
